@@ -50,11 +50,30 @@ BACKEND = "sv"
 PID = "C03"
 
 # (family, number of designs) per tier
+# "nd" = every array-like construct x {1, 2, 3} dimensions x {constant, loop-variable, signal} indices in update
+# blocks and connect statements: index = construct + 15 * (dimensions - 1) (+ 45 per further round of the grid,
+# which draws other sizes / widths); "lv" = every use of a loop variable x 8 range forms.
+# An entry is (family, number of designs) or (family, list of design indices).
+def nd_idx(dims, constructs=None, rounds=1):
+    import svgen
+    cs = svgen.ND_CONSTRUCTS
+    return [r * 3 * len(cs) + (d - 1) * len(cs) + cs.index(c) for r in range(rounds) for d in dims
+            for c in (constructs or cs)]
+
+
+# the sub-component constructs are the heaviest (4 arrays of instances each): 3-D only in the thorough tier
+_ND_LIGHT = ["port", "wire", "pfield", "pfwire", "pftmp", "sfield", "ifc", "ifcnest", "ifcport", "ffwire", "constarr"]
 GEN = {
     "quick": [("unit", 160), ("ops", 40), ("expr", 24), ("ctrl", 24), ("loopidx", 10), ("struct", 10), ("hier", 10),
-              ("seq", 12), ("misc", 12)],
-    "thorough": [("unit", 480), ("ops", 560), ("expr", 400), ("ctrl", 300), ("loopidx", 100), ("struct", 100),
-                 ("hier", 100), ("seq", 120), ("misc", 120)],
+              ("seq", 12), ("misc", 12),
+              ("nd", nd_idx([1], _ND_LIGHT) + nd_idx([2]) + nd_idx([3], ["port", "wire", "pfield", "pftmp", "ifc", "ifcnest",
+                                                                         "ffwire", "constarr"])),
+              ("lv", 8)],
+    # (two rounds of the grid, the second one without the 3-D sub-component arrays; the expression families
+    # were trimmed by about a fifth to make room: unit 480 -> 400, ops 560 -> 400, expr 400 -> 320, ctrl 300 -> 240)
+    "thorough": [("unit", 400), ("ops", 400), ("expr", 320), ("ctrl", 240), ("loopidx", 100), ("struct", 100),
+                 ("hier", 100), ("seq", 120), ("misc", 120),
+                 ("nd", nd_idx([1, 2, 3]) + [45 + i for i in nd_idx([1, 2]) + nd_idx([3], _ND_LIGHT)]), ("lv", 32)],
 }
 QUICK_STDLIB = ["RoundRobinArbiter_4", "RoundRobinArbiterEn_3", "Mux_8_4", "Mux_33_2", "Demux_8_4", "Adder_33", "Subtractor_32",
                 "Incrementer_8", "ZeroComparator_32", "LTComparator_33", "LEComparator_8", "EqComparator_1",
@@ -69,18 +88,28 @@ QUICK_STDLIB = ["RoundRobinArbiter_4", "RoundRobinArbiterEn_3", "Mux_8_4", "Mux_
 # the yosys check shares the expression translator with C03 and validates every run twice (cross check
 # against the SystemVerilog text, second opinion for signed loop variables): fewer expression designs,
 # more structural ones
+# (quick: the n-dimensional forms of every construct the yosys back end flattens; the constructs whose yosys
+# translation is invalid / disconnected for every size (known findings: struct-typed temporaries, nested
+# interfaces, struct wires) and the heaviest ones only in 2-D; the whole grid in the thorough tier)
 GEN_C12 = {
-    "quick": [("unit", 60), ("ops", 12), ("expr", 10), ("ctrl", 12), ("loopidx", 10), ("struct", 18), ("hier", 10),
-              ("seq", 8), ("misc", 12)],
-    "thorough": [("unit", 320), ("ops", 300), ("expr", 240), ("ctrl", 200), ("loopidx", 100), ("struct", 180),
-                 ("hier", 120), ("seq", 100), ("misc", 120)],
+    "quick": [("unit", 40), ("ops", 8), ("expr", 10), ("ctrl", 12), ("loopidx", 10), ("struct", 16), ("hier", 10),
+              ("seq", 8), ("misc", 12),
+              ("nd", nd_idx([2], ["port", "wire", "pfield", "pfwire", "pftmp", "ifc", "ifcnest", "ifcport", "comp", "compifc",
+                                  "compport", "ffwire", "constarr"])
+               + nd_idx([3], ["port", "ifc", "ifcport"]) + nd_idx([1], ["ifcnest", "ifcport", "compport", "ffwire"])),
+              ("lv", 8)],
+    # (one full round of the grid and a second round of its 2-D part; unit 320 -> 240, ops 300 -> 220,
+    # expr 240 -> 200, ctrl 200 -> 170, struct 180 -> 160, hier 120 -> 110 make room for it)
+    "thorough": [("unit", 240), ("ops", 220), ("expr", 200), ("ctrl", 170), ("loopidx", 100), ("struct", 160),
+                 ("hier", 110), ("seq", 100), ("misc", 120),
+                 ("nd", nd_idx([1, 2, 3]) + [45 + i for i in nd_idx([2], _ND_LIGHT)]), ("lv", 16)],
 }
 
 
 def gen_specs(tier, seed_tag):
     specs = []
     for fam, n in (GEN_C12 if seed_tag == "C12" else GEN)[tier]:
-        for i in range(n):
+        for i in (range(n) if isinstance(n, int) else n):
             name, src, meta = svgen.design(fam, i, seed_tag)
             specs.append(("gen", name, src, "Top", meta))
     return specs
